@@ -520,6 +520,10 @@ func runC10(c *ev.Ctx) {
 				<-doneCh
 			}
 			err = fmt.Errorf("watchdog: no completion within %v", timeout)
+			// keep the goroutine dump: it is the witness of a deadlock verdict (or shows why there is none)
+			dir := filepath.Join(ev.OutDir(), "replays", "C10")
+			os.MkdirAll(dir, 0o755)
+			os.WriteFile(filepath.Join(dir, fmt.Sprintf("watchdog-dump-%s.txt", strings.Join(args, "-"))), se.Bytes(), 0o644)
 		}
 		for _, l := range strings.Split(so.String(), "\n") {
 			var m c10Msg
@@ -652,7 +656,7 @@ func runC10(c *ev.Ctx) {
 		"example_trace_rule": "MBBegin(x,y) requires an earlier MBEnd(min(x+1,mbW-1), y-1)"})
 }
 
-var parkedRE = regexp.MustCompile(`goroutine \d+ \[sync\.Cond\.Wait, \d+ minutes\]:\n(?:.*\n){0,12}?.*rowSync\)\.waitFor`)
+var parkedRE = regexp.MustCompile(`goroutine \d+ [^\[\n]*\[sync\.Cond\.Wait, \d+ minutes\]:\n(?:.+\n){0,14}?.*rowSync\)\.waitFor`)
 
 // parkedForMinutes: the QUIT dump shows a goroutine that has been parked in the row wait for at least a
 // minute (the runtime prints the wait time). A live encode never waits that long for a neighbour row, so
